@@ -493,18 +493,29 @@ def j_c14(sh, a, b):
     buffer it was decoded from (SCRIBBLE) or to any other packet. The model (value semantics) predicts exactly
     this; a disagreement between model and implementation about what a frame decodes *to* is C03's business."""
     res = base(sh, a, b, {'SCRIBBLE'})
-    known = {}
+    known, known_enc = {}, {}
     for i in range(a, b):
         t = sh['ops'][i].split()
         if not t:
             continue
         op, g = t[0], sh['go'][i]
         if op == 'RESET':
-            known = {}
+            known, known_enc = {}, {}
         elif op == 'DEC' and len(t) >= 2:
             known[t[1]] = g[len('dec ok '):] if g.startswith('dec ok ') else None
+            known_enc[t[1]] = None
         elif op in ('NEW', 'ZERO', 'SET', 'RD', 'RDP') and len(t) >= 2:
-            known[t[-1] if op == 'RDP' else t[1]] = None
+            known[t[2] if op == 'RDP' else t[1]] = None
+            known_enc[t[2] if op == 'RDP' else t[1]] = None
+        elif op == 'ENC' and len(t) >= 2 and g.startswith('enc '):
+            # the bytes an untouched packet writes must not change either (a PINGREQ has no accessor to look at)
+            res['evals'] += 1
+            old = known_enc.get(t[1])
+            if old is not None and old != g:
+                res['concrete'].append(dict(line=i, what='packet %s changed without being operated on: it wrote `%s`, now writes `%s`' % (
+                    t[1], old[:200], g[:200])))
+                break
+            known_enc[t[1]] = g
         elif op == 'VIEW' and len(t) >= 2 and g.startswith('view '):
             res['evals'] += 1
             cur = g[len('view '):]
@@ -613,12 +624,22 @@ KINDS = ["Undefined", "Connect", "ConnAck", "Publish", "PubAck", "PubRec", "PubR
 def j_c16(sh, a, b):
     res = base(sh, a, b, {'RD', 'VIEW', 'ENC'})
     b0 = None
+    keep = False
     for i in range(a, b):
         op, g = sh['ops'][i], sh['go'][i]
-        if op.startswith('NOTE case=first'):
+        if op.startswith('NOTE case=first '):
             b0 = int(notes(op)['b0'])
             res['keys'].append('b0=%d' % b0)
             res['hist'].append('type=%d' % (b0 >> 4))
+        elif op == 'NOTE case=firstkeep':
+            keep = True
+        elif keep and op.startswith('ENC k'):
+            n = int(op[5:])
+            if n >> 4:
+                res['evals'] += 1
+                if not g.startswith('enc %02x' % n):
+                    res['concrete'].append(dict(line=i, what='first byte 0x%02x not reproduced when the packet is written after later decodes: %s' % (n, g[:60])))
+                    break
         elif op.startswith('RD ') and b0 is not None:
             res['evals'] += 1
             kind = KINDS[b0 >> 4]
@@ -642,6 +663,7 @@ def j_c16(sh, a, b):
 def j_c17(sh, a, b):
     res = base(sh, a, b, {'WF', 'STR'})
     kind = None
+    rdp_ok = False
     st = dict(topic=False, alias=0, qos=0, pid=0, filters=[], subid=None)
     for i in range(a, b):
         op, g = sh['ops'][i], sh['go'][i]
@@ -666,7 +688,11 @@ def j_c17(sh, a, b):
                     st['filters'].append((xs[k] != '-', int(xs[k + 1])))
             elif t[2] == 'SetSubscriptionID':
                 st['subid'] = int(t[3])
-        elif t[0] in ('WF', 'STR') and t[1] == 'p' and kind in ('Publish', 'Subscribe'):
+        elif t[0] == 'RDP' and t[1:] == ['p', 'q']:
+            # the twin decoded from the bytes p wrote: same verdict expected (what the rules look at is transmitted
+            # whenever it matters: the packet identifier for QoS 1 and 2, every filter with its options)
+            rdp_ok = g.startswith('rdp ') and g != 'rdp err'
+        elif t[0] in ('WF', 'STR') and (t[1] == 'p' or (t[1] == 'q' and rdp_ok)) and kind in ('Publish', 'Subscribe'):
             if kind == 'Publish':
                 mal = (not st['topic'] and st['alias'] == 0) or (st['qos'] in (1, 2) and st['pid'] == 0) or st['qos'] == 3
                 key = 'P|t%d a%d q%d p%d' % (st['topic'], st['alias'] != 0, st['qos'], st['pid'] != 0)
@@ -677,7 +703,7 @@ def j_c17(sh, a, b):
                                           ','.join('%d%d' % (f, (o & 3) == 3) for f, o in st['filters']))
             res['evals'] += 1
             res['keys'].append(key)
-            res['hist'].append(kind + ('=malformed' if mal else '=wellformed'))
+            res['hist'].append(kind + ('=malformed' if mal else '=wellformed') + ('/decoded' if t[1] == 'q' else ''))
             if t[0] == 'WF':
                 if (g == 'wf nil') == mal or not g.startswith('wf '):
                     res['concrete'].append(dict(line=i, what='WellFormed disagrees with the documented rules (%s, expected %s): %s' % (
